@@ -35,6 +35,9 @@ def build_model(spec):
                                                unsupported=spec.get('unsupported', True), small=True)
     g = torch.Generator().manual_seed(spec['model_seed'] + 1)
     gen.init_params(model, g)
+    if not spec.get('var_res'):
+        # multi-rank scenarios keep one resolution: the single-process union-batch reference concatenates the ranks' batches
+        in_shape = tuple(in_shape)
     return model, in_shape, info
 
 
